@@ -845,6 +845,8 @@ def run(ctx):
     tl = check_ls(ctx, ls_scs)
     tb = check_bb(ctx, bb_scs)
     tp = check_rp(ctx, rp_scs)
+    from harness.props import x_romc_pipeline
+    x_romc_pipeline.check_romc_pipeline(ctx)      # extension: the ROMC pipeline as a state machine (E: clauses, drift only)
     ctx.exhaustive = True
     ctx.notes.append("%d line-search traces (%d emitted by TLC), %d boxes (%d with exact rotations = every signed permutation in 1-3 D), %d posteriors"
                      % (len(ls_scs), sum(1 for s in ls_scs if s.get("emitted")), len(bb_scs), n_exact, len(rp_scs)))
